@@ -227,8 +227,10 @@ Definition ttx_process (d : str) (t : Z) (b : pbuf) : res (pbuf * list tpage) :=
 Definition trunT := trun unit.
 Record tcue := mkTcue { c_st : Z; c_en : Z; c_lines : list (list trunT) }.
 
+(* the page's character decoder has no state of its own while a row is parsed *)
+Definition ttx_dec (c : list str) (_ : unit) (v : N) : res (str * unit) := do t <- cd_decode c v; Ok (t, tt).
 Definition ttx_parse_row (c : list str) (row : list N) : res (list trunT) :=
-  parse_row unit unit (cd_decode c) None tt row.
+  do r <- parse_row unit unit unit (ttx_dec c) None tt tt row; Ok (fst r).
 
 Fixpoint parse_rows (c : list str) (data : list (N * list N)) (rows : list N) : res (list (list trunT)) :=
   match rows with
